@@ -8,6 +8,7 @@ import Reamber.Lemmas.SMRows
 import Reamber.Lemmas.SMTimes
 import Reamber.Lemmas.SMText
 import Reamber.Lemmas.SMPair
+import Reamber.Lemmas.SMTempo
 import Reamber.Props.C10
 import Reamber.Generated.SMTables
 
@@ -205,9 +206,8 @@ theorem sm_times (σf : List Snap → List Nat) (hσ : ∀ qs, SortsAsc (σf qs)
         | error e => simp [hex] at h
         | ok ns =>
           simp only [hex] at h
-          split at h
-          · cases h
-          · cases h; rfl
+          cases h
+          rfl
 
 theorem tmTail_bpms (T : Rat) (cur : BcSnap) (rest : List BcSnap) : (tmTail T cur rest).map (·.bpm) = rest.map (·.bpm) := by
   induction rest generalizing T cur with
@@ -224,8 +224,8 @@ theorem tmOf_bpms (t0 : Rat) (cs : List BcSnap) : (tmOf t0 cs).map (·.bpm) = cs
 /-- **`tempo_list_keeps_times_partial`** — every `#BPMS` change is in the chart's tempo list at its millisecond
 position.  Proved here for tempo changes that all lie on measure lines: the reseating step is then skipped and the
 tempo list is the list of `(timeAt t0 cs (position of change i), bpm i)`.
-Full statement (not proved here): the same for changes on the 1/48-beat grid inside measures — that needs the
-loop invariant of `reseat_bpm_changes_snap` (C11 `reseat_keeps_times`); the check evaluates it on every case. -/
+The general statement (mid-measure changes) is `tempo_list_keeps_times` below; this one needs no threshold hypotheses
+and gives equality of the whole list. -/
 theorem tempo_list_keeps_times_partial (σf : List Snap → List Nat) (data : Str) (t0 : Rat) (cs : List BcSnap) (ss : Bool)
     (hwf : wfChanges cs = true) (hs : sortedSnaps cs = true) (h0 : firstAtZero cs = true)
     (hline : ∀ c ∈ cs, c.snap.beat = 0)
@@ -263,6 +263,32 @@ theorem tempo_list_keeps_times_partial (σf : List Snap → List Nat) (data : St
   · rw [List.map_map]
     exact tmOf_bpms t0 cs
 
+/-- **`tempo_list_keeps_times`** — every `#BPMS` change is present in the chart's tempo list at its own millisecond
+position, mid-measure changes included.  Under C11's hypotheses on the parsed `#BPMS` list (`Dom`: ascending,
+well-formed, first at beat 0, no remainder inside the 1/1000 "extend" thresholds — true of every list on the
+1/16-beat grid): the tempo list `_read_notes` stores contains the original changes in order, first on first, last on
+last, at most one inserted point per original interval, each at exactly the time obtained by integrating the
+file's beats (`inPts t0 cs`, `interleaveB 0 false`).  Uses C11 `seatFromD_spec`/`reseat_eq_ref` and the lemma that
+the reseated (seated) list is stored at the times obtained by integrating it (`fromBcSnapNoReseat_seated`). -/
+theorem tempo_list_keeps_times (σf : List Snap → List Nat) (data : Str) (t0 : Rat) (cs : List BcSnap) (ss : Bool)
+    (hd : Dom extendThreshold cs) (bpms : List (Rat × Rat)) (notes : List Note)
+    (h : readNotesWith σf data (some t0) (some cs) ss = .ok (bpms, notes)) :
+    interleaveB 0 false (inPts t0 cs) (bpms.map (fun p => (⟨p.1, p.2⟩ : OutPt))) = true := by
+  obtain ⟨tm, htm, hint⟩ := fromBcSnap_reseat_keeps_times t0 cs hd
+  unfold readNotesWith at h
+  simp only [Option.getD_some, bind, Except.bind, Option.isNone_some, Bool.false_eq_true, ↓reduceIte, htm] at h
+  have hb : bpms = tm.map (fun b => (b.offset, b.bpm)) := by
+    repeat' split at h
+    all_goals first
+      | (cases h; rfl)
+      | cases h
+  subst hb
+  rw [List.map_map]
+  exact hint
+
+example : Dom extendThreshold [⟨120, 4, ⟨0, 0, some 4⟩⟩, ⟨60, 4, ⟨1, 1/2, some 4⟩⟩, ⟨200, 4, ⟨1, 25/16, some 4⟩⟩] := by
+  unfold Dom; decide +kernel
+
 /-! ### charts and their headers (text level) -/
 
 /-- **Every chart is returned, each read from its own token** (any number of charts): for a text
@@ -288,7 +314,7 @@ theorem chart_own_header (t0 : Option Rat) (bcs : Option (List BcSnap)) (ss : Bo
     readNotes data t0 bcs ss = .ok (c.bpms, c.notes) :=
   SM.readMap_fields t0 bcs ss pre ct ds df mv rv data hc c h
 
-/-! ### known findings (open): counterexamples on the model -/
+/-! ### findings: D31 (repaired) as a regression theorem, D32 (open) as a counterexample on the model -/
 
 def textNoStops : Str :=
   ['#','O','F','F','S','E','T',':','0',';','#','B','P','M','S',':','0','=','1','2','0',';','#','N','O','T','E','S',':','d','a','n','c','e','-','s','i','n','g','l','e',':',':',':','1',':','0',':','1','0','0','0','\n','0','0','0','0','\n','0','0','0','0','\n','0','0','0','0',';']
@@ -297,14 +323,14 @@ def textCommentColon : Str :=
 def textSample : Str :=
   ['#','O','F','F','S','E','T',':','-','0','.','5',';','#','B','P','M','S',':','0','=','1','2','0',';','#','S','T','O','P','S',':',';','#','N','O','T','E','S',':','d','a','n','c','e','-','s','i','n','g','l','e',':','d',':','H','a','r','d',':','5',':','0',',','0',':','1','0','0','0','\n','0','1','0','0','\n','0','0','1','0','\n','0','0','0','1','\n',',','\n','2','0','0','0','\n','0','0','0','0','\n','3','0','0','0','\n','0','0','0','0',';']
 
-/-- **DSM1**: a text with no `#STOPS` tag: by the StepMania rules it has one chart with one tap
-(`denote`), the reader raises (`stops.sorted` on `None`, AttributeError → class `other`). -/
-theorem no_stops_tag_counterexample :
-    read textNoStops = .error (.py .other) ∧
+/-- **D31 (repaired)**: a text with no `#STOPS` tag reads (the stop list defaults to empty) and gives the chart
+the StepMania rules give — one chart with one tap at beat 0. -/
+theorem no_stops_tag_reads :
+    (read textNoStops).toOption.map (fun ms => ms.charts.map (fun c => c.notes.map (fun n => (n.col, n.time)))) = some [[(0, 0)]] ∧
     (denote textNoStops).map (fun d => (d.stopsPresent, d.charts.map (fun c => c.notes.length))) = some (false, [1]) := by
   decide +kernel
 
-/-- **DSM2**: a comment whose text contains ':' inside a chart: by the StepMania rules (comments are removed
+/-- **D32 (open)**: a comment whose text contains ':' inside a chart: by the StepMania rules (comments are removed
 first) the chart has 4 taps; the reader returns only the 2 after the comment. -/
 theorem comment_colon_counterexample :
     (read textCommentColon).toOption.map (fun ms => ms.charts.map (fun c => c.notes.length)) = some [2] ∧
